@@ -335,12 +335,61 @@ def findings(res, model):
         ol.cleanup_scratch()
 
 
+def check_export(res, rng, tag):
+    """the export path: Network.export writes the project (configuration + sources rendered through the API); `naunet render`
+    on that configuration must give the same sources - with modifier values of every type the API accepts (numbers incl. zero, strings)"""
+    d = ol.scratch_dir()
+    reset_globals()
+    src = fw.REPO / "tests/data/minimal.kida"
+    with quiet():
+        idxs = [r.idxfromfile for r in Network(filelist=str(src), fileformats="kida").reaction_list]
+    values = [0.0, 0, "0.0", 2.5e-10, 1, "1.0e-12 * sqrt(Tgas)", "zeta * 2.0"]
+    fixed = [{idxs[0]: 0.0, idxs[-1]: "1.0e-12 * sqrt(Tgas)"}, {idxs[0]: 0, idxs[-1]: "0.0"}, {idxs[-1]: 0.0}]
+    rmod = fixed[tag] if isinstance(tag, int) and tag < len(fixed) else {i: rng.choice(values) for i in rng.sample(idxs, rng.randint(1, len(idxs)))}
+    omod = {"H": {"factors": [rng.choice(["-1.0e-18", "zeta"])], "reactants": [["H"]]}} if rng.random() < 0.5 else None
+    solver, method = rng.choice([("cvode", "dense"), ("cvode", "sparse"), ("odeint", "rosenbrock4")])
+    case = {"kind": "c20-export", "rate_modifier": {str(k): repr(v) for k, v in rmod.items()}, "ode_modifier": omod, "solver": solver, "method": method}
+    reset_globals()
+    try:
+        with quiet():
+            net = Network(filelist=str(src), fileformats="kida", rate_modifier=dict(rmod), ode_modifier=omod, required_species=["He"])
+            net.export("proj", solver=solver, method=method, prefix=d, overwrite=True)
+    except Exception as e:
+        res.violation("oracle", f"Network.export fails: {type(e).__name__}: {e}", case)
+        ol.cleanup_scratch()
+        return
+    # the exported reaction file lists the reactants of a reaction in the writer's order: products of abundances may come out
+    # with their factors in another order, which is the same expression - factors of a bare product chain are sorted before comparing
+    chain = re.compile(r"[A-Za-z_][\w\[\]]*(?:\*[A-Za-z_][\w\[\]]*)+")
+
+    def canon(files):
+        return {k: chain.sub(lambda m: "*".join(sorted(m.group(0).split("*"))), v) for k, v in files.items()}
+    api = canon(tree_files(d / "proj"))
+    rc, out, err = naunet_cli(["render", "--force", "-n"], d / "proj")
+    if rc != 0:
+        res.violation("oracle", f"`naunet render` fails on the project Network.export wrote: {(err.strip().splitlines() or [rc])[-1]}", case)
+        ol.cleanup_scratch()
+        return
+    cli = canon(tree_files(d / "proj"))
+    for k in sorted(set(api) | set(cli)):
+        if api.get(k) != cli.get(k):
+            la, lb = (api.get(k) or "").splitlines(), (cli.get(k) or "").splitlines()
+            i = next((i for i, (x, y) in enumerate(zip(la, lb)) if x != y), min(len(la), len(lb)))
+            res.violation("oracle", f"exported project (rate modifiers {case['rate_modifier']}): {k} rendered by `naunet render` differs from the API rendering "
+                                    f"at line {i + 1}: {lb[i] if i < len(lb) else None!r} vs {la[i] if i < len(la) else None!r}", case)
+            break
+    res.count("exported projects re-rendered")
+    res.case(("c20-export", tag, repr(case)), nontrivial=True)
+    ol.cleanup_scratch()
+
+
 def run(res, info):
     rng = random.Random(res.seed * 7919 + 20)
     model = fw.Model() if info["ok"] else None
     res.rule = ("generated network descriptions (3-8 elements, pseudo-elements, replacements, symbols incl. non-default bulk prefix, allowed / extra species, "
                 "binding energies and yields, five file formats, grain model, cooling, shielding, 0-3 rate modifiers, 0-3 ODE-modifier terms, three solver "
-                "selections) written as option strings (with and without blanks after commas) -> `naunet init` -> TOML; a subset -> `naunet render` vs API")
+                "selections) written as option strings (with and without blanks after commas) -> `naunet init` -> TOML; a subset -> `naunet render` vs API; API networks with rate modifiers of every accepted type "
+                "(numbers incl. zero, strings) and ODE modifiers -> Network.export -> `naunet render` vs the exported sources")
     res.assumptions = ["values hold no separator of their field and not the substring 'null' (two known findings otherwise)"]
     n = 30 if res.tier == "quick" else 600
     nr = 3 if res.tier == "quick" else 40
@@ -349,6 +398,8 @@ def run(res, info):
         check_request(res, model, req, fmt, rng, i, render=i < nr)
     check_fixed_render(res, model, rng)
     check_fixed_render(res, model, rng, yield_only_request(), UCL_LINES + UCL_EXTRA)
+    for i in range(5 if res.tier == "quick" else 60):
+        check_export(res, rng, i)
     findings(res, model)
     if model:
         model.close()
